@@ -630,6 +630,20 @@ impl VLog {
 	}
 
 	/// Pre-fills the file_handles cache with all existing VLog files
+	/// Forgets every open file handle, the file registry and the active writer, and
+	/// rebuilds them from the files that are in the directory now. Used after the
+	/// directory contents were replaced wholesale (restore from a checkpoint): the old
+	/// writer would keep appending at its previous offset and the cached handles would
+	/// keep reading files that no longer exist under that name.
+	pub(crate) fn reload_from_directory(&self) -> Result<()> {
+		*self.writer.write() = None;
+		self.file_handles.write().clear();
+		self.files_map.write().clear();
+		self.next_file_id.store(1, Ordering::SeqCst);
+		self.active_writer_id.store(0, Ordering::SeqCst);
+		self.prefill_file_handles()
+	}
+
 	fn prefill_file_handles(&self) -> Result<()> {
 		let entries = match std::fs::read_dir(&self.path) {
 			Ok(entries) => entries,
